@@ -266,3 +266,7 @@ Qed.
 (* trivia.rs ws on an input that does not start with a blank *)
 Lemma ws_none r p d : stops (in_class WSCHAR) r -> ws (mkIn r p d) = Ok [] (mkIn r p d).
 Proof. intro H. unfold ws, unchecked_utf8. rewrite take_while0_none by exact H. reflexivity. Qed.
+
+(* the progress checks of the loops *)
+Lemma eqb_lt n m : n < m -> Nat.eqb n m = false.
+Proof. intro H. apply Nat.eqb_neq. lia. Qed.
